@@ -3,22 +3,204 @@ package main
 import (
 	"fmt"
 	"os"
+	"path/filepath"
+	"strings"
 	"time"
 
+	"golang.org/x/tools/go/ssa"
+
+	"verif/checker/internal/core"
+	"verif/checker/internal/ir"
 	"verif/checker/internal/load"
+	"verif/checker/internal/rules"
 )
 
+func verifDir() string {
+	if d := os.Getenv("VERIF_DIR"); d != "" {
+		return d
+	}
+	exe, err := os.Executable()
+	if err == nil {
+		d := filepath.Dir(filepath.Dir(exe))
+		if _, err := os.Stat(filepath.Join(d, "MANIFEST.json")); err == nil {
+			return d
+		}
+	}
+	return "/verif"
+}
+
 func main() {
-	t0 := time.Now()
+	if len(os.Args) < 2 {
+		usage()
+	}
+	switch os.Args[1] {
+	case "dump":
+		dump(os.Args[2:])
+	case "check":
+		os.Exit(check(os.Args[2:]))
+	case "replay":
+		if len(os.Args) < 3 {
+			usage()
+		}
+		b, err := os.ReadFile(os.Args[2])
+		if err != nil {
+			fmt.Println(err)
+			os.Exit(2)
+		}
+		fmt.Println(string(b))
+	case "list":
+		fmt.Println(strings.Join(rules.IDs(), " "))
+	default:
+		usage()
+	}
+}
+
+func usage() {
+	fmt.Println("usage: golemcheck check <ID>|all [--tier quick|thorough] | replay <file> | dump <pkg> <func|Type.Method> | list")
+	os.Exit(2)
+}
+
+func check(args []string) (code int) {
+	tStart := time.Now()
+	tier := os.Getenv("VERIF_TIER")
+	if tier == "" {
+		tier = "quick"
+	}
+	var ids []string
+	for i := 0; i < len(args); i++ {
+		switch {
+		case args[i] == "--tier" && i+1 < len(args):
+			tier = args[i+1]
+			i++
+		case args[i] == "all":
+			ids = append(ids, rules.IDs()...)
+		default:
+			ids = append(ids, args[i])
+		}
+	}
+	if tier != "quick" && tier != "thorough" {
+		tier = "quick"
+	}
+	vd := verifDir()
+	known, err := core.LoadKnown(filepath.Join(vd, "known_findings.json"))
+	if err != nil {
+		fmt.Println("ERROR", err)
+		return 2
+	}
+	archs := []string{""}
+	if tier == "thorough" {
+		archs = []string{"", "386", "arm64"}
+	}
+	worlds := map[string]*load.World{}
+	defer func() {
+		for _, w := range worlds {
+			w.Close()
+		}
+	}()
+	failProp := func(id, msg string) {
+		p := filepath.Join(vd, "evidence", "violations", id+"-0.json")
+		os.MkdirAll(filepath.Dir(p), 0o755)
+		os.WriteFile(p, []byte(fmt.Sprintf("{\"property\":%q,\"status\":\"undecided\",\"detail\":%q}\n", id, msg)), 0o644)
+		fmt.Println(msg)
+		fmt.Printf("VIOLATION property=%s replay=%s kind=undecided rule=loader\n", id, p)
+	}
+	for _, a := range archs {
+		w, err := load.Load(load.RepoDir(), a)
+		if err == nil {
+			err = w.CheckComplete()
+		}
+		if err != nil {
+			for _, id := range ids {
+				failProp(id, fmt.Sprintf("cannot load/type-check the repository (GOARCH=%q): %v", a, err))
+			}
+			return 1
+		}
+		worlds[a] = w
+	}
+	loadDur := time.Since(tStart)
+	for _, id := range ids {
+		pack := rules.Packs[id]
+		if pack == nil {
+			fmt.Printf("no check for %s\n", id)
+			code = 2
+			continue
+		}
+		t0 := time.Now().Add(-loadDur)
+		var ctxs []*core.Ctx
+		panicked := false
+		for _, a := range archs {
+			c := core.NewCtx(worlds[a], id, tier)
+			func() {
+				defer func() {
+					if r := recover(); r != nil {
+						panicked = true
+						failProp(id, fmt.Sprintf("checker panic in %s: %v", id, r))
+					}
+				}()
+				pack.Run(c)
+			}()
+			ctxs = append(ctxs, c)
+		}
+		if panicked {
+			code = 1
+			continue
+		}
+		extra := map[string]any{}
+		if tier == "thorough" {
+			thorough(id, vd, extra)
+		}
+		out := vd
+		if o := os.Getenv("VERIF_OUT"); o != "" {
+			out = o
+		}
+		res := core.Finish(out, ctxs, pack.Meta, known, t0, extra)
+		if res.ExitCode != 0 {
+			code = 1
+		}
+	}
+	return code
+}
+
+func dump(args []string) {
 	w, err := load.Load(load.RepoDir(), os.Getenv("VERIF_GOARCH"))
 	if err != nil {
 		fmt.Println("ERR", err)
 		os.Exit(2)
 	}
 	defer w.Close()
-	fmt.Println(w.AllLogical(), time.Since(t0))
-	for _, p := range w.AllLogical() {
-		fmt.Println(p, len(w.SourceFuncs(p)))
+	var fn *ssa.Function
+	if i := strings.Index(args[1], "."); i > 0 {
+		fn = w.Method(args[0], args[1][:i], args[1][i+1:])
+	} else {
+		fn = w.Func(args[0], args[1])
 	}
-	fmt.Println(w.CheckComplete())
+	if fn == nil {
+		fmt.Println("not found")
+		os.Exit(2)
+	}
+	opt := core.NewCtx(w, "dump", "quick").Options()
+	var rec func(fn *ssa.Function, st *ir.State, ind string)
+	rec = func(fn *ssa.Function, st *ir.State, ind string) {
+		an := ir.Analyze(fn, st, opt)
+		fmt.Printf("%s== %s: headers=%d paths=%d problems=%v\n", ind, ir.FuncName(fn), len(an.Headers), an.NPaths, an.Problems)
+		seen := map[ssa.Instruction]bool{}
+		for _, p := range an.AllPaths() {
+			fmt.Print(ind + strings.ReplaceAll(p.String(), "\n", "\n"+ind))
+			for ph, v := range p.PhiOut {
+				fmt.Printf("    phi %s := %v\n%s", ph.Name(), v, ind)
+			}
+			fmt.Println()
+			for _, s := range p.Events(ir.KGo) {
+				if seen[s.Instr] {
+					continue
+				}
+				seen[s.Instr] = true
+				sfn, sst := ir.SpawnState(s)
+				if sfn != nil {
+					rec(sfn, sst, ind+"  | ")
+				}
+			}
+		}
+	}
+	rec(fn, ir.NewRootState(fn, nil, nil, nil), "")
 }
